@@ -45,6 +45,10 @@ var rePlaceholder = regexp.MustCompile(`^(N|P|C)_[0-9a-z]+$`)
 
 // runMC runs an MC module in its own scratch directory and returns the result with the exported JSON lines.
 func runMC(module string, consts map[string]string, timeout time.Duration, workers int) (*mcRun, []string, error) {
+	return runMCcfg(module, "", consts, timeout, workers)
+}
+
+func runMCcfg(module, cfg string, consts map[string]string, timeout time.Duration, workers int) (*mcRun, []string, error) {
 	dir, err := scratchDir("mc")
 	if err != nil {
 		return nil, nil, err
@@ -53,7 +57,7 @@ func runMC(module string, consts map[string]string, timeout time.Duration, worke
 	if err := copySpecs(dir); err != nil {
 		return nil, nil, err
 	}
-	res, err := RunTLC(dir, TLCOpts{Module: module, Workers: workers, Timeout: timeout, Defines: consts})
+	res, err := RunTLC(dir, TLCOpts{Module: module, Config: cfg, Workers: workers, Timeout: timeout, Defines: consts})
 	run := &mcRun{Module: module, Constants: consts}
 	if res != nil {
 		run.Generated, run.Distinct, run.Depth, run.OK, run.WallS, run.InvViolated = res.Generated, res.Distinct, res.Depth, res.OK, res.WallS, res.InvViolated
